@@ -15,11 +15,17 @@ _W = {}
 
 def _init(modname, factory, args):
     os.environ.setdefault('PYTHONHASHSEED', '0')
-    mod = importlib.import_module(modname)
-    _W['spec'] = getattr(mod, factory)(*args)
+    # never raise here: multiprocessing.Pool would respawn the worker forever
+    try:
+        mod = importlib.import_module(modname)
+        _W['spec'] = getattr(mod, factory)(*args)
+    except BaseException as e:  # noqa
+        _W['init_error'] = '%r\n%s' % (e, traceback.format_exc())
 
 
 def _work(task):
+    if 'init_error' in _W:
+        return ('err', 'worker initialisation failed: ' + _W['init_error'])
     try:
         return ('ok', _W['spec'].work(task))
     except BaseException as e:  # noqa
